@@ -117,7 +117,7 @@ func runNative(workDir, pkg string, cases []replayCase) (map[string]nativeResult
 	cmd := exec.Command("go", "test", "-tags", "verif", "-overlay", ovPath, "-vet=off", "-count=1", "-timeout", "30m", "-run", "^TestVerifReplay$", pattern)
 	cmd.Dir = dir
 	cmd.Env = append(os.Environ(), "GOFLAGS=-mod=mod", "GOPROXY=off", "GOSUMDB=off", "GOTOOLCHAIN=local",
-		"VERIF_REPLAY="+inPath, "VERIF_REPLAY_OUT="+outPath)
+		"VERIF_REPLAY="+inPath, "VERIF_REPLAY_OUT="+outPath, "VERIF_TWIN="+symgo.TwinLabel)
 	var out bytes.Buffer
 	cmd.Stdout, cmd.Stderr = &out, &out
 	err := cmd.Run()
@@ -482,6 +482,15 @@ func check(id, tier string, seed int64, workers int, verbose bool, only string, 
 		}
 	}
 
+	if symgo.TwinLabel != "" {
+		// self-test: the only acceptable outcome is a reproduced violation of the twin
+		if exit == 1 {
+			fmt.Printf("TWIN-OK %s %q\n", id, symgo.TwinLabel)
+			return 0
+		}
+		fmt.Printf("TWIN-FAIL %s %q\n", id, symgo.TwinLabel)
+		return 1
+	}
 	if len(inconclusive) > 0 && exit == 0 {
 		exit = 3
 	}
@@ -540,7 +549,9 @@ func check(id, tier string, seed int64, workers int, verbose bool, only string, 
 		"wall_s":      time.Since(t0).Seconds(),
 		"violations":  violationsReported,
 	}
-	writeJSON(filepath.Join(verifDir, "evidence", id+".json"), ev)
+	if symgo.TwinLabel == "" {
+		writeJSON(filepath.Join(verifDir, "evidence", id+".json"), ev)
+	}
 	status := map[int]string{0: "PASS", 1: "VIOLATION", 3: "INCONCLUSIVE"}[exit]
 	fmt.Printf("%s property=%s tier=%s paths=%d decisions=%d queries=%d validated=%d wall=%.1fs\n", status, id, tier, totalPaths, totalDecisions, totalQueries, validated, time.Since(t0).Seconds())
 	return exit
